@@ -358,4 +358,121 @@ theorem feature_lookup {η γ : Type} [DecidableEq η] (i : Nat) (hdr : List η)
 example : featureByName 1 ["a", "y", "b"] [10, 30] "b" = .ok 30 ∧
     featureByName 1 ["a", "y", "b"] [10, 30] "y" = (.error .keyError : Except Err Nat) := by decide
 
+/-! ## Phase 3 -/
+
+/-! ### end to end = the in-memory (X,Y) form: the simulation over the reader yields exactly the interactions
+`SupervisedSimulation(X, Y, label_type)` yields for the examples the file denotes -/
+
+theorem dense_eq_xy (given : Option LType) (ind : Int) (table : List (List Label))
+    (ints : List (Interaction (List Label))) (h : simDense given none ind table = .ok ints) :
+    ∃ exs, DenseSplit ind table exs ∧ simPairs given none exs = .ok ints :=
+  dense_eq_xy' given ind table ints h
+
+theorem end_to_end_csv_xy (delim : Nat) (hd1 : delim ≠ C12.DQ) (hd2 : C12.isNl delim = false) (hasHeader : Bool)
+    (rows : List (List (Bool × C12.Text))) (hok : ∀ r ∈ rows, C12.csvRowOk r = true)
+    (ind : Int) (given : Option LType) (ints : List (Interaction (List Label)))
+    (h : csvSim delim hasHeader (.index ind) given (rows.map (C12.csvWriteRow delim)) = .ok ints) :
+    ∃ exs, DenseSplit ind (((rows.map (·.map (·.2))).drop (if hasHeader then 1 else 0)).map (·.map textLabel)) exs ∧
+      simPairs given none exs = .ok ints :=
+  end_to_end_csv_xy' delim hd1 hd2 hasHeader rows hok ind given ints h
+
+/-- LibSVM: an equation, errors included -/
+theorem end_to_end_libsvm_xy (rows : List C12.SvmRow) (hok : ∀ r ∈ rows, C12.svmRowOk r = true) (given : Option LType) :
+    libsvmSim given (rows.map C12.svmWriteRow) = simPairs given none (rows.map svmPair) :=
+  end_to_end_libsvm_xy' rows hok given
+
+theorem end_to_end_manik_xy (first : C12.Text) (rows : List C12.SvmRow) (hok : ∀ r ∈ rows, C12.svmRowOk r = true)
+    (given : Option LType) :
+    manikSim given (first :: rows.map C12.svmWriteRow) = simPairs given none (rows.map svmPair) :=
+  end_to_end_manik_xy' first rows hok given
+
+example : C12.svmRowOk ⟨[[49], [50]], [([51], [52, 46, 53])]⟩ = true := by decide
+
+/- theorem end_to_end_arff_xy (any ARFF file a Weka/OpenML writer produces) — only in part:
+   * dense, one quote style, names/levels/values within C12's `AttrW.ok` / `arffRowOk` (gaps named by C12-F8, F9, F11), header and
+     data lines handed over separately (C12 has no round trip of the whole-file reader `arffRead`): `end_to_end_arff_dense_xy_partial`;
+   * sparse data lines: not proved — C12 proves `arff_sparse_roundtrip_partial` for one row (`arffSparseLine`) but not for
+     `sparseRows` (implicit columns, encoders) over a file; sparse ARFF stays covered by (A)+(B) through the table path only. -/
+theorem end_to_end_arff_dense_xy_partial (q : Nat) (hq : q = C12.SQ ∨ q = C12.DQ) (also : Nat → Bool)
+    (attrs : List C12.AttrW) (hattr : ∀ a ∈ attrs, a.ok true = true) (hnd : (attrs.map (·.name.2)).Nodup)
+    (rows : List (Nat × List (Bool × C12.Text)))
+    (hrows : ∀ r ∈ rows, C12.arffRowOk q r.2 = true ∧ r.2.length = attrs.length)
+    (ind : Int) (given : Option LType) (ints : List (Interaction (List Label)))
+    (h : arffDenseSim (.index ind) given (attrs.map (·.line q also))
+          (rows.map (fun r => C12.arffWriteRow q also r.1 r.2)) = .ok ints) :
+    ∃ cells table, encodeRows (attrs.map (·.typ.enc true)) (rows.map (·.2.map (·.2))) = .ok cells ∧
+      rowsLabels cells = .ok table ∧
+      ∃ exs, DenseSplit ind table exs ∧ simPairs given none exs = .ok ints :=
+  end_to_end_arff_dense_xy' q hq also attrs hattr hnd rows hrows ind given ints h
+
+/-! ### the lazy row the learner receives (C13's model of `HeadDense` / `LabelDense` / `DropOne`) -/
+
+/-- the context object of an interaction over a list-backed table is `LabelDense(row,i,tipe).feats = DropOne(row,i)`;
+iterating it, its length, indexing it by position and its header map all give the features (the row without cell `i`),
+and the label the simulation uses is cell `i` -/
+theorem lazy_context (hdr : Option (List String)) (vals : List C13.Val) (i : Nat) (t : Option String)
+    (hi : i < vals.length) :
+    (C13.DRow.label (lazyRow hdr vals) i t).feats = .ok (lazyContext hdr vals i) ∧
+    (C13.DRow.label (lazyRow hdr vals) i t).labelVal = C13.idx vals i ∧
+    (lazyContext hdr vals i).iter = .ok (vals.eraseIdx i) ∧
+    (lazyContext hdr vals i).len = (vals.eraseIdx i).length ∧
+    (∀ j, (lazyContext hdr vals i).getPos j = C13.idx (vals.eraseIdx i) j) ∧
+    (lazyContext hdr vals i).headers.toOption = (hdr.map C13.zipNames).map (C13.DRow.shiftHdr i) :=
+  lazy_context' hdr vals i t hi
+
+/-- the label cannot be read out of the lazy context by the label column's header name -/
+theorem lazy_context_label_hidden (ns : List String) (vals : List C13.Val) (i : Nat) (l : String)
+    (hn : ns.Nodup) (hl : ns[i]? = some l) :
+    (lazyContext (some ns) vals i).getName l = .error .keyError :=
+  lazy_context_label_hidden' ns vals i l hn hl
+
+/-- every other column is read from the lazy context under its header name -/
+theorem lazy_context_name (ns : List String) (vals : List C13.Val) (i k : Nat) (name : String) (v : C13.Val)
+    (hn : ns.Nodup) (hi : i < vals.length) (hk : k ≠ i) (hname : ns[k]? = some name) (hv : vals[k]? = some v) :
+    (lazyContext (some ns) vals i).getName name = .ok v :=
+  lazy_context_name' ns vals i k name v hn hi hk hname hv
+
+example : (lazyContext (some ["a", "y", "b"]) [.int 1, .str "x", .int 2] 1).getName "b" = .ok (.int 2) ∧
+    (lazyContext (some ["a", "y", "b"]) [.int 1, .str "x", .int 2] 1).getName "y" = .error .keyError ∧
+    (lazyContext (some ["a", "y", "b"]) [.int 1, .str "x", .int 2] 1).iter = .ok [.int 1, .int 2] := by decide
+
+/-! ### which action order the code guarantees: a function of the label set (and the declared levels) alone -/
+
+/-- plain labels (strings, numbers, one-element lists): ascending in Python's `<` (`actions_eq`), hence two example
+sets with the same labels — in any order, with any multiplicities, any features — are offered the same action list -/
+theorem actions_order_canonical {χ₁ χ₂ : Type} (g₁ g₂ : Option LType) (rows₁ : List (χ₁ × Label)) (rows₂ : List (χ₂ × Label))
+    (ints₁ : List (Interaction χ₁)) (ints₂ : List (Interaction χ₂))
+    (h₁ : read g₁ rows₁ = .ok ints₁) (h₂ : read g₂ rows₂ = .ok ints₂)
+    (t₁ : typeOf g₁ rows₁ = some .c) (t₂ : typeOf g₂ rows₂ = some .c)
+    (l₁ : firstLevels rows₁ = none) (l₂ : firstLevels rows₂ = none)
+    (hset : ∀ v, (∃ r ∈ rows₁, delist r.2 = .ok v) ↔ (∃ r ∈ rows₂, delist r.2 = .ok v)) :
+    ∀ x₁ ∈ ints₁, ∀ x₂ ∈ ints₂, x₁.actions = x₂.actions :=
+  actions_order_canonical' g₁ g₂ rows₁ rows₂ ints₁ ints₂ h₁ h₂ t₁ t₂ l₁ l₂ hset
+
+/-- Categorical labels: the declared level order restricted to the occurring levels (`actions_eq_cat`): same levels
+and same occurring labels give the same action list -/
+theorem cat_order_canonical {χ₁ χ₂ : Type} (g₁ g₂ : Option LType) (rows₁ : List (χ₁ × Label)) (rows₂ : List (χ₂ × Label))
+    (ints₁ : List (Interaction χ₁)) (ints₂ : List (Interaction χ₂)) (levels : List String)
+    (h₁ : read g₁ rows₁ = .ok ints₁) (h₂ : read g₂ rows₂ = .ok ints₂)
+    (t₁ : typeOf g₁ rows₁ = some .c) (t₂ : typeOf g₂ rows₂ = some .c)
+    (l₁ : firstLevels rows₁ = some levels) (l₂ : firstLevels rows₂ = some levels)
+    (hset : ∀ v, (∃ r ∈ rows₁, delist r.2 = .ok v) ↔ (∃ r ∈ rows₂, delist r.2 = .ok v)) :
+    ∀ x₁ ∈ ints₁, ∀ x₂ ∈ ints₂, x₁.actions = x₂.actions :=
+  cat_order_canonical' g₁ g₂ rows₁ rows₂ ints₁ ints₂ levels h₁ h₂ t₁ t₂ l₁ l₂ hset
+
+/-- multi-label: ascending over the union of the label sets -/
+theorem multilabel_order_canonical {χ₁ χ₂ : Type} (g₁ g₂ : Option LType) (rows₁ : List (χ₁ × Label)) (rows₂ : List (χ₂ × Label))
+    (ints₁ : List (Interaction χ₁)) (ints₂ : List (Interaction χ₂))
+    (h₁ : read g₁ rows₁ = .ok ints₁) (h₂ : read g₂ rows₂ = .ok ints₂)
+    (t₁ : typeOf g₁ rows₁ = some .m) (t₂ : typeOf g₂ rows₂ = some .m)
+    (hset : ∀ v, (∃ r ∈ rows₁, ∃ vs, r.2 = .list vs ∧ v ∈ vs) ↔ (∃ r ∈ rows₂, ∃ vs, r.2 = .list vs ∧ v ∈ vs)) :
+    ∀ x₁ ∈ ints₁, ∀ x₂ ∈ ints₂, x₁.actions = x₂.actions :=
+  multilabel_order_canonical' g₁ g₂ rows₁ rows₂ ints₁ ints₂ h₁ h₂ t₁ t₂ hset
+
+/-- the same labels in another order, with other multiplicities and other features: the same action list -/
+example : (read (χ := Nat) none [(1, .atom (.str "b")), (2, .atom (.str "a")), (3, .atom (.str "b"))]).toOption.map (·.map (·.actions)) =
+      some [[.str "a", .str "b"], [.str "a", .str "b"], [.str "a", .str "b"]] ∧
+    (read (χ := Nat) none [(7, .atom (.str "a")), (8, .atom (.str "b"))]).toOption.map (·.map (·.actions)) =
+      some [[.str "a", .str "b"], [.str "a", .str "b"]] := by decide
+
 end Coba.C14
